@@ -1,5 +1,355 @@
-(* Expr/UntrustedProofs.v — proofs for C11 (see the section comments). *)
+(* Expr/UntrustedProofs.v — proofs for C11.
+
+   Layer 1 (exact, no permutations): the repaired automaton run on the event
+   sequence of the Sema traversal computes [total e] = [inner e ++ flush (final e)],
+   where [final e] is the chain state the trace of [e] ends in and [inner e]
+   the errors emitted strictly before.  The invariant: a finished chain stays
+   pending and untouched until the first state-changing callback of the next
+   sub-trace, which is always an end().
+   Layer 2: [total e] equals the specification [spec_paths] up to the order
+   of the paths inside one report (map iteration order in onObjectFilter). *)
 From AL Require Import Expr.Untrusted Expr.UntrustedSpec.
+From Coq Require Import Permutation.
 
 Lemma non_script_silent fixed roots funcs e : check_untrusted fixed roots funcs false e = [].
 Proof. reflexivity. Qed.
+
+(* ---------------------------------------------------------------------- *)
+(* equations of the traversal *)
+
+Section Layer1.
+Variable roots : list utree.
+Variable funcs : list string.
+
+Notation RUN := (run true roots).
+Notation EV := (ev funcs).
+
+Lemma run_app a b s : RUN (a ++ b) s = RUN b (RUN a s).
+Proof. unfold run. apply fold_left_app. Qed.
+
+Lemma run_cons x l s : RUN (x :: l) s = RUN l (step true roots s x).
+Proof. reflexivity. Qed.
+
+Lemma run_nil s : RUN [] s = s.
+Proof. reflexivity. Qed.
+
+Definition is_leaf_expr (e : expr) : bool :=
+  match e with
+  | EVar _ _ | ENull _ | EBool _ _ | EInt _ _ | EFloat _ _ | EStr _ _ => true
+  | _ => false
+  end.
+
+Definition narrowable (e : expr) : bool :=
+  match e with ELog _ _ _ | ENot _ _ => true | _ => false end.
+
+Lemma ev_some_default t e : narrowable e = false -> EV (Some t) e = EV None e.
+Proof. destruct e; cbn; try reflexivity; discriminate. Qed.
+
+Lemma ev_leaf e : is_leaf_expr e = true -> EV None e = [Enter (node_of e); Leave (node_of e)].
+Proof. destruct e; cbn; try reflexivity; discriminate. Qed.
+
+Lemma ev_deref r n : EV None (EDeref r n) = Enter (NDeref n) :: EV None r ++ [Leave (NDeref n)].
+Proof. reflexivity. Qed.
+
+Lemma ev_arr r : EV None (EArrDeref r) = Enter NArrDeref :: EV None r ++ [Leave NArrDeref].
+Proof. reflexivity. Qed.
+
+Lemma ev_index o i : EV None (EIndex o i) =
+  Enter (node_of (EIndex o i)) :: EV None i ++ EV None o ++ [Leave (node_of (EIndex o i))].
+Proof. reflexivity. Qed.
+
+Lemma ev_not_none p a : EV None (ENot p a) = Enter NOther :: EV None a ++ [Leave NOther].
+Proof. reflexivity. Qed.
+
+Lemma ev_not_some t p a : EV (Some t) (ENot p a) = EV (Some (negb t)) a.
+Proof. reflexivity. Qed.
+
+Lemma ev_cmp op l r : EV None (ECmp op l r) = Enter NOther :: EV None l ++ EV None r ++ [Leave NOther].
+Proof. reflexivity. Qed.
+
+Lemma ev_log_none op l r : EV None (ELog op l r) =
+  Enter NOther :: EV (Some (lhs_truthy op)) l ++ EV None r ++ [Leave NOther].
+Proof. reflexivity. Qed.
+
+Lemma ev_log_some t op l r : EV (Some t) (ELog op l r) =
+  (if Bool.eqb t (lhs_truthy op) then EV (Some t) l else EV None l) ++ EV None r.
+Proof. destruct t, op; reflexivity. Qed.
+
+Lemma ev_call p c args : EV None (ECall p c args) =
+  Enter (NCall c) :: (if known funcs c then flat_map (EV None) args else []) ++ [Leave (NCall c)].
+Proof. reflexivity. Qed.
+
+(* ---------------------------------------------------------------------- *)
+(* inside a sanitising call nothing changes *)
+
+Definition safe_node (n : node) : bool :=
+  match n with NCall c => is_safe_call c | _ => false end.
+
+Lemma enter_unsafe n s : safe_node n = false -> on_enter n s = s.
+Proof. destruct n; cbn; try reflexivity. intros ->. reflexivity. Qed.
+
+Lemma leave_unsafe_ignored n s k : safe_node n = false -> s_safe s = S k -> on_leave true roots n s = s.
+Proof.
+  intros Hn Hs. unfold on_leave. rewrite Hs. destruct n; try reflexivity.
+  cbn in Hn. rewrite Hn. reflexivity.
+Qed.
+
+Lemma st_eta s k : s_safe s = k -> {| s_chain := s_chain s; s_safe := k; s_errs := s_errs s |} = s.
+Proof. destruct s; cbn; intros <-; reflexivity. Qed.
+
+Lemma pair_ignored n evs s k :
+  s_safe s = S k ->
+  (forall s' k', s_safe s' = S k' -> RUN evs s' = s') ->
+  RUN (Enter n :: evs ++ [Leave n]) s = s.
+Proof.
+  intros Hs Hin. rewrite run_cons, run_app. cbn [step].
+  destruct (safe_node n) eqn:Hn.
+  - destruct n; try discriminate. cbn in Hn. cbn [on_enter]. rewrite Hn.
+    rewrite (Hin _ (S k)) by (cbn; now rewrite Hs).
+    cbn [run fold_left step on_leave s_safe]. rewrite Hs, Hn. cbn. now apply st_eta.
+  - rewrite enter_unsafe by assumption. rewrite (Hin _ k) by assumption.
+    cbn [run fold_left step]. now apply (leave_unsafe_ignored _ _ k).
+Qed.
+
+Lemma flat_map_ignored (args : list expr) :
+  Forall (fun a => forall m s k, s_safe s = S k -> RUN (EV m a) s = s) args ->
+  forall s k, s_safe s = S k -> RUN (flat_map (EV None) args) s = s.
+Proof.
+  induction 1 as [|a args Ha _ IH]; intros s k Hs; cbn [flat_map]; [reflexivity|].
+  rewrite run_app, (Ha None s k Hs). now apply (IH s k).
+Qed.
+
+Lemma ignore_leaf e m s k : is_leaf_expr e = true -> s_safe s = S k -> RUN (EV m e) s = s.
+Proof.
+  intros He Hs.
+  assert (Hd : EV m e = EV None e).
+  { destruct m; [|reflexivity]. apply ev_some_default. destruct e; (reflexivity || discriminate). }
+  rewrite Hd, ev_leaf by assumption.
+  change [Enter (node_of e); Leave (node_of e)] with (Enter (node_of e) :: [] ++ [Leave (node_of e)]).
+  apply (pair_ignored _ _ _ k Hs). intros; reflexivity.
+Qed.
+
+Lemma ignore_ev e : forall m s k, s_safe s = S k -> RUN (EV m e) s = s.
+Proof.
+  induction e using expr_ind'; intros m s0 k Hs.
+  1-6: apply (ignore_leaf _ _ _ k); [reflexivity|assumption].
+  - assert (Hd : EV m (EDeref e n) = EV None (EDeref e n)) by (destruct m; reflexivity).
+    rewrite Hd, ev_deref. apply (pair_ignored _ _ _ k Hs). intros; eauto.
+  - assert (Hd : EV m (EArrDeref e) = EV None (EArrDeref e)) by (destruct m; reflexivity).
+    rewrite Hd, ev_arr. apply (pair_ignored _ _ _ k Hs). intros; eauto.
+  - assert (Hd : EV m (EIndex e1 e2) = EV None (EIndex e1 e2)) by (destruct m; reflexivity).
+    rewrite Hd, ev_index, app_assoc. apply (pair_ignored _ _ _ k Hs). intros s' k' Hs'.
+    rewrite run_app, (IHe2 None s' k' Hs'). eauto.
+  - destruct m as [t|].
+    + rewrite ev_not_some. eauto.
+    + rewrite ev_not_none. apply (pair_ignored _ _ _ k Hs). intros; eauto.
+  - assert (Hd : EV m (ECmp op e1 e2) = EV None (ECmp op e1 e2)) by (destruct m; reflexivity).
+    rewrite Hd, ev_cmp, app_assoc. apply (pair_ignored _ _ _ k Hs). intros s' k' Hs'.
+    rewrite run_app, (IHe1 None s' k' Hs'). eauto.
+  - destruct m as [t|].
+    + rewrite ev_log_some, run_app.
+      destruct (Bool.eqb t (lhs_truthy op)); rewrite (IHe1 _ s0 k Hs); eauto.
+    + rewrite ev_log_none, app_assoc. apply (pair_ignored _ _ _ k Hs). intros s' k' Hs'.
+      rewrite run_app, (IHe1 _ s' k' Hs'). eauto.
+  - assert (Hd : EV m (ECall p c args) = EV None (ECall p c args)) by (destruct m; reflexivity).
+    rewrite Hd, ev_call. apply (pair_ignored _ _ _ k Hs). intros s' k' Hs'.
+    destruct (known funcs c); [|reflexivity]. now apply (flat_map_ignored args H s' k').
+Qed.
+
+(* ---------------------------------------------------------------------- *)
+(* what the trace of e leaves behind *)
+
+Definition leave_index_chain (i : expr) (c : chain_st) : chain_st :=
+  match i with EStr _ v => on_index_lit true v c | _ => on_index_access c end.
+
+(* the chain state after the trace of e *)
+Fixpoint final (e : expr) : chain_st :=
+  match e with
+  | EVar p n => on_var roots p n chain_reset
+  | EDeref r n => on_prop_access n (final r)
+  | EArrDeref r => on_object_filter (final r)
+  | EIndex o i => leave_index_chain i (final o)
+  | _ => chain_reset
+  end.
+
+(* the errors emitted while the trace of e runs, not counting the flush of
+   what was pending before *)
+Fixpoint inner (e : expr) : list report :=
+  match e with
+  | EVar _ _ | ENull _ | EBool _ _ | EInt _ _ | EFloat _ _ | EStr _ _ => []
+  | EDeref r _ => inner r
+  | EArrDeref r => inner r
+  | EIndex o i => (inner i ++ flush (final i)) ++ inner o
+  | ENot _ a => inner a ++ flush (final a)
+  | ECmp _ l r => (inner l ++ flush (final l)) ++ (inner r ++ flush (final r))
+  | ELog _ l r => (inner l ++ flush (final l)) ++ (inner r ++ flush (final r))
+  | ECall _ c args =>
+      if is_safe_call c then []
+      else if known funcs c then flat_map (fun a => inner a ++ flush (final a)) args
+      else []
+  end.
+
+Definition total (e : expr) : list report := inner e ++ flush (final e).
+
+(* everything the state will have reported once flushed *)
+Definition pending (s : st) : list report := s_errs s ++ flush (s_chain s).
+
+Definition mk (c : chain_st) (errs : list report) : st := {| s_chain := c; s_safe := 0; s_errs := errs |}.
+
+Definition R1 (e : expr) : Prop :=
+  forall s, s_safe s = 0 -> RUN (EV None e) s = mk (final e) (pending s ++ inner e).
+
+Definition W (m : option bool) (e : expr) : Prop :=
+  forall s, s_safe s = 0 ->
+    s_safe (RUN (EV m e) s) = 0 /\ pending (RUN (EV m e) s) = pending s ++ total e.
+
+Lemma R1_W e : R1 e -> W None e.
+Proof.
+  intros H s Hs. rewrite (H s Hs). split; [reflexivity|].
+  unfold pending, mk, total; cbn. now rewrite app_assoc.
+Qed.
+
+Lemma leave0 n s : s_safe s = 0 -> on_leave true roots n s =
+  match n with
+  | NVar p name => let s' := do_end s in with_chain s' (on_var roots p name (s_chain s'))
+  | NDeref prop => with_chain s (on_prop_access prop (s_chain s))
+  | NIndex (Some v) => with_chain s (on_index_lit true v (s_chain s))
+  | NIndex None => with_chain s (on_index_access (s_chain s))
+  | NArrDeref => with_chain s (on_object_filter (s_chain s))
+  | NCall _ | NOther => do_end s
+  end.
+Proof. intros Hs. unfold on_leave. rewrite Hs. reflexivity. Qed.
+
+Lemma do_end_mk c errs : do_end (mk c errs) = mk chain_reset (errs ++ flush c).
+Proof. reflexivity. Qed.
+
+Lemma do_end_0 s : s_safe s = 0 -> do_end s = mk chain_reset (pending s).
+Proof. intros Hs. unfold do_end, mk, pending. now rewrite Hs. Qed.
+
+Lemma flush_reset : flush chain_reset = [].
+Proof. reflexivity. Qed.
+
+Lemma leave_index o i c errs :
+  on_leave true roots (node_of (EIndex o i)) (mk c errs) = mk (leave_index_chain i c) errs.
+Proof. destruct i; reflexivity. Qed.
+
+Lemma W_args (args : list expr) :
+  Forall (W None) args ->
+  forall s, s_safe s = 0 ->
+    s_safe (RUN (flat_map (EV None) args) s) = 0 /\
+    pending (RUN (flat_map (EV None) args) s) = pending s ++ flat_map total args.
+Proof.
+  induction 1 as [|a args Ha _ IH]; intros s Hs; cbn [flat_map].
+  - split; [assumption|]. now rewrite app_nil_r.
+  - rewrite run_app. destruct (Ha s Hs) as [H1 H2].
+    destruct (IH _ H1) as [H3 H4]. split; [assumption|].
+    rewrite H4, H2. now rewrite app_assoc.
+Qed.
+
+Lemma leaf_R1 e : is_leaf_expr e = true -> R1 e.
+Proof.
+  intros He s Hs. rewrite ev_leaf by assumption.
+  cbn [run fold_left step]. rewrite enter_unsafe by (destruct e; (reflexivity || discriminate)).
+  rewrite leave0 by assumption.
+  destruct e; try discriminate; cbn [node_of final inner];
+    rewrite ?app_nil_r; try (now apply do_end_0).
+  rewrite (do_end_0 s Hs). reflexivity.
+Qed.
+
+Lemma W_default t e : narrowable e = false -> W None e -> W (Some t) e.
+Proof. intros Hn H s Hs. rewrite ev_some_default by assumption. now apply H. Qed.
+
+Lemma main_inv e : R1 e /\ forall t, W (Some t) e.
+Proof.
+  induction e using expr_ind'.
+  1-6: split; [now apply leaf_R1|intros t; apply W_default; [reflexivity|apply R1_W; now apply leaf_R1]].
+  - (* EDeref *)
+    destruct IHe as [IH _].
+    assert (H1 : R1 (EDeref e n)).
+    { intros s Hs. rewrite ev_deref, run_cons, run_app. cbn [step on_enter].
+      rewrite (IH s Hs). reflexivity. }
+    split; [exact H1|]. intros t. apply W_default; [reflexivity|now apply R1_W].
+  - (* EArrDeref *)
+    destruct IHe as [IH _].
+    assert (H1 : R1 (EArrDeref e)).
+    { intros s Hs. rewrite ev_arr, run_cons, run_app. cbn [step on_enter].
+      rewrite (IH s Hs). reflexivity. }
+    split; [exact H1|]. intros t. apply W_default; [reflexivity|now apply R1_W].
+  - (* EIndex *)
+    destruct IHe1 as [IHo _], IHe2 as [IHi _].
+    assert (H1 : R1 (EIndex e1 e2)).
+    { intros s Hs. rewrite ev_index, run_cons, !run_app. cbn [step].
+      rewrite enter_unsafe by (destruct e2; reflexivity).
+      rewrite (IHi s Hs), (IHo (mk _ _) eq_refl).
+      cbn [run fold_left step]. rewrite leave_index.
+      unfold pending at 1; cbn [mk s_errs s_chain].
+      cbn [final inner]. f_equal. now rewrite <- !app_assoc. }
+    split; [exact H1|]. intros t. apply W_default; [reflexivity|now apply R1_W].
+  - (* ENot *)
+    destruct IHe as [IH IHn].
+    assert (H1 : R1 (ENot p e)).
+    { intros s Hs. rewrite ev_not_none, run_cons, run_app. cbn [step on_enter].
+      rewrite (IH s Hs). cbn [run fold_left step]. rewrite leave0 by reflexivity.
+      rewrite do_end_mk. cbn [final inner]. f_equal. now rewrite <- !app_assoc. }
+    split; [exact H1|]. intros t s Hs. rewrite ev_not_some.
+    destruct (IHn (negb t) s Hs) as [H2 H3]. split; [assumption|].
+    rewrite H3. unfold total. cbn [final inner]. now rewrite flush_reset, app_nil_r.
+  - (* ECmp *)
+    destruct IHe1 as [IHl _], IHe2 as [IHr _].
+    assert (H1 : R1 (ECmp op e1 e2)).
+    { intros s Hs. rewrite ev_cmp, run_cons, !run_app. cbn [step on_enter].
+      rewrite (IHl s Hs), (IHr (mk _ _) eq_refl).
+      cbn [run fold_left step]. rewrite leave0 by reflexivity. rewrite do_end_mk.
+      unfold pending at 1; cbn [mk s_errs s_chain final inner]. f_equal. now rewrite <- !app_assoc. }
+    split; [exact H1|]. intros t. apply W_default; [reflexivity|now apply R1_W].
+  - (* ELog *)
+    destruct IHe1 as [IHl IHln], IHe2 as [IHr _].
+    assert (Hboth : forall m, W m e1 -> forall s, s_safe s = 0 ->
+              s_safe (RUN (EV m e1 ++ EV None e2) s) = 0 /\
+              pending (RUN (EV m e1 ++ EV None e2) s) = pending s ++ total e1 ++ total e2).
+    { intros m Hm s Hs. rewrite run_app. destruct (Hm s Hs) as [H2 H3].
+      destruct (R1_W _ IHr _ H2) as [H4 H5]. split; [assumption|].
+      now rewrite H5, H3, <- app_assoc. }
+    assert (H1 : R1 (ELog op e1 e2)).
+    { intros s Hs. rewrite ev_log_none, run_cons, !run_app. cbn [step on_enter].
+      destruct (IHln (lhs_truthy op) s Hs) as [H2 H3].
+      rewrite (IHr _ H2). cbn [run fold_left step]. rewrite leave0 by reflexivity.
+      rewrite do_end_mk, H3. cbn [final inner]. f_equal. unfold total. now rewrite <- !app_assoc. }
+    split; [exact H1|]. intros t s Hs. rewrite ev_log_some.
+    assert (Ht : total (ELog op e1 e2) = total e1 ++ total e2).
+    { unfold total. cbn [final inner]. now rewrite flush_reset, app_nil_r. }
+    rewrite Ht.
+    destruct (Bool.eqb t (lhs_truthy op)).
+    + now apply Hboth.
+    + apply Hboth; [now apply R1_W|assumption].
+  - (* ECall *)
+    assert (HW : Forall (W None) args).
+    { eapply Forall_impl; [|exact H]. intros a [Ha _]. now apply R1_W. }
+    assert (H1 : R1 (ECall p c args)).
+    { intros s Hs. rewrite ev_call, run_cons, run_app. cbn [step on_enter inner final].
+      destruct (is_safe_call c) eqn:Hc.
+      - assert (Hmid : RUN (if known funcs c then flat_map (EV None) args else [])
+                         {| s_chain := s_chain s; s_safe := S (s_safe s); s_errs := s_errs s |}
+                       = {| s_chain := s_chain s; s_safe := S (s_safe s); s_errs := s_errs s |}).
+        { destruct (known funcs c); [|reflexivity].
+          apply (flat_map_ignored args) with (k := s_safe s); [|reflexivity].
+          eapply Forall_impl; [|exact H]. intros a _ m s' k'. apply ignore_ev. }
+        rewrite Hmid. cbn [run fold_left step on_leave s_safe]. rewrite Hc, Hs.
+        cbn [s_chain s_errs]. unfold do_end, mk, pending; cbn. now rewrite app_nil_r.
+      - destruct (known funcs c).
+        + destruct (W_args args HW s Hs) as [H2 H3].
+          cbn [run fold_left step]. rewrite leave0 by assumption.
+          rewrite (do_end_0 _ H2), H3. reflexivity.
+        + cbn [run fold_left step]. rewrite leave0 by assumption.
+          rewrite (do_end_0 _ Hs). now rewrite app_nil_r. }
+    split; [exact H1|]. intros t. apply W_default; [reflexivity|now apply R1_W].
+Qed.
+
+(* Layer 1: Check() reports exactly [total e] *)
+Theorem reported_total e : reported true roots (events funcs e) = total e.
+Proof.
+  unfold reported, events. destruct (main_inv e) as [H _].
+  rewrite (H st_init eq_refl). reflexivity.
+Qed.
+
+End Layer1.
